@@ -1,20 +1,9 @@
 (* Assembly of the simulation cases. *)
 From Coq Require Import ZArith NArith List Bool Lia.
-From KV.comp Require Import Ast0 Sem0 Instr0 Comp0 VM0 Known0 InstrLemmas CompLemmas SemLemmas SimBase SimExpr SimExpr2 SimCmp SimQ SimIf.
+From KV.comp Require Import Ast0 Sem0 Instr0 Comp0 VM0 Known0 InstrLemmas CompLemmas SemLemmas SimBase SimExpr SimExpr2 SimCmp SimQ SimIf SimLoop.
 Import ListNotations.
 Open Scope N_scope.
 Ltac Zify.zify_post_hook ::= Z.to_euclidean_division_equations.
-
-(* the fragment covered by the proved theorem (the compiler / VM / Sem models cover all of Core-0) *)
-Fixpoint frag (e : expr) : bool :=
-  match e with
-  | ENull | EBool _ | EInt _ | EId _ => true
-  | ENested a | ENeg a | ENot a | EAssign _ a | EOpAssign _ _ a => frag a
-  | EArith _ a b | ECmp _ a b | ELogic _ a b => frag a && frag b
-  | EBlock es => all_list frag es
-  | EIf c t elifs els => frag c && frag t && all_arms frag elifs && all_opt frag els
-  | _ => false
-  end.
 
 Section SimA.
   Variable pool : list pentry.
@@ -66,10 +55,10 @@ Section SimA.
   Lemma op_Q : forall e, (wf_expr e = true -> esc e = false /\ P pool e) -> Q pool e.
   Proof. intros e H WF. destruct (H WF) as (NE & HP). exact (P_to_Q pool e HP NE WF). Qed.
 
-  Lemma sim_all : forall e, frag e = true ->
+  Lemma sim_all : forall e,
     Q pool e /\ (wf_expr e = true -> esc e = false -> ChainP pool e).
   Proof.
-    induction e using expr_ind2; intros Fr; try discriminate Fr; cbn [frag] in Fr.
+    induction e using expr_ind2.
     - assert (X : P pool ENull).
       { intros r st out st' c H W _. eapply (lit_case pool ENull ISetNull VNull); eauto. }
       assert (XQ : Q pool ENull) by (apply P_to_Q; auto).
@@ -84,26 +73,26 @@ Section SimA.
       split; [exact XQ|apply leaf_chain; auto].
     - assert (XQ : Q pool (EId x)) by (apply P_to_Q; auto; apply id_case).
       split; [exact XQ|apply leaf_chain; auto].
-    - destruct (IHe Fr) as (X & _).
+    - destruct IHe as (X & _).
       assert (XQ : Q pool (ENested e)) by (apply nestedQ; exact X).
       split; [exact XQ|apply leaf_chain; auto].
-    - destruct (IHe Fr) as (X & _).
+    - destruct IHe as (X & _).
       assert (XQ : Q pool (ENeg e)).
       { apply op_Q. intros WF. cbn [wf_expr] in WF. apply andb_prop in WF as [NE WFa]. apply negb_true_iff in NE.
         split; [exact NE|]. apply neg_case. apply Q_to_P; auto. }
       split; [exact XQ|apply leaf_chain; auto].
-    - destruct (IHe Fr) as (X & _).
+    - destruct IHe as (X & _).
       assert (XQ : Q pool (ENot e)).
       { apply op_Q. intros WF. cbn [wf_expr] in WF. apply andb_prop in WF as [NE WFa]. apply negb_true_iff in NE.
         split; [exact NE|]. apply not_case. apply Q_to_P; auto. }
       split; [exact XQ|apply leaf_chain; auto].
-    - apply andb_prop in Fr as [Fa Fb]. destruct (IHe1 Fa) as (X1 & _). destruct (IHe2 Fb) as (X2 & _).
+    - destruct IHe1 as (X1 & _). destruct IHe2 as (X2 & _).
       assert (XQ : Q pool (EArith o e1 e2)).
       { apply op_Q. intros WF. cbn [wf_expr] in WF. apply andb_prop in WF as [WF WFb]. apply andb_prop in WF as [WF WFa].
         apply andb_prop in WF as [NEa NEb]. apply negb_true_iff in NEa, NEb.
         split; [cbn; rewrite NEa, NEb; reflexivity|]. apply arith_case; apply Q_to_P; auto. }
       split; [exact XQ|apply leaf_chain; auto].
-    - apply andb_prop in Fr as [Fa Fb]. destruct (IHe1 Fa) as (X1 & C1). destruct (IHe2 Fb) as (X2 & C2).
+    - destruct IHe1 as (X1 & C1). destruct IHe2 as (X2 & C2).
       assert (XP : wf_expr (ECmp o e1 e2) = true -> P pool (ECmp o e1 e2)).
       { intros WF. cbn [wf_expr] in WF. apply andb_prop in WF as [WF WFb]. apply andb_prop in WF as [WF WFa].
         apply andb_prop in WF as [NEa NEb]. apply negb_true_iff in NEa, NEb.
@@ -115,38 +104,47 @@ Section SimA.
       + intros WF NE. cbn [wf_expr] in WF. apply andb_prop in WF as [WF WFb]. apply andb_prop in WF as [WF WFa].
         apply andb_prop in WF as [NEa NEb]. apply negb_true_iff in NEa, NEb.
         apply chain_node; [apply Q_to_P; auto|apply C2; auto].
-    - apply andb_prop in Fr as [Fa Fb]. destruct (IHe1 Fa) as (X1 & _). destruct (IHe2 Fb) as (X2 & _).
+    - destruct IHe1 as (X1 & _). destruct IHe2 as (X2 & _).
       assert (XQ : Q pool (ELogic o e1 e2)).
       { apply op_Q. intros WF. cbn [wf_expr] in WF. apply andb_prop in WF as [WF WFb]. apply andb_prop in WF as [WF WFa].
         apply andb_prop in WF as [NEa NEb]. apply negb_true_iff in NEa, NEb.
         split; [cbn; rewrite NEa, NEb; reflexivity|]. apply logic_case; apply Q_to_P; auto. }
       split; [exact XQ|apply leaf_chain; auto].
-    - destruct (IHe Fr) as (X & _).
+    - destruct IHe as (X & _).
       assert (XQ : Q pool (EAssign x e)).
       { apply op_Q. intros WF. cbn [wf_expr] in WF. apply andb_prop in WF as [NE WFa]. apply negb_true_iff in NE.
         split; [exact NE|]. apply assign_case. apply Q_to_P; auto. }
       split; [exact XQ|apply leaf_chain; auto].
-    - destruct (IHe Fr) as (X & _).
+    - destruct IHe as (X & _).
       assert (XQ : Q pool (EOpAssign o x e)).
       { apply op_Q. intros WF. cbn [wf_expr] in WF. apply andb_prop in WF as [NE WFa]. apply negb_true_iff in NE.
         split; [exact NE|]. apply opassign_case. apply Q_to_P; auto. }
       split; [exact XQ|apply leaf_chain; auto].
     - assert (XQ : Q pool (EBlock es)).
       { apply blockQ. induction es as [|e0 rest IHr]; [constructor|].
-        inversion H; subst. cbn [all_list] in Fr. apply andb_prop in Fr as [F0 Fr].
-        constructor; [apply H2; assumption|apply IHr; assumption]. }
+        inversion H; subst. constructor; [apply H2|apply IHr; assumption]. }
       split; [exact XQ|apply leaf_chain; auto].
-    - apply andb_prop in Fr as [Fr Fe]. apply andb_prop in Fr as [Fr Fl].
-      apply andb_prop in Fr as [Fc Ft].
-      assert (XQ : Q pool (EIf e1 e2 elifs els)).
+    - assert (XQ : Q pool (EIf e1 e2 elifs els)).
       { apply ifQ.
-        - apply IHe1; assumption.
-        - apply IHe2; assumption.
-        - clear - H Fl. induction elifs as [|[c0 t0] rest IHr]; [constructor|].
-          inversion H; subst. cbn [all_arms] in Fl. apply andb_prop in Fl as [Fl Fr].
-          apply andb_prop in Fl as [F1 F2]. destruct H2 as (Hc & Ht). cbn [fst snd] in *.
-          constructor; [split; [apply Hc|apply Ht]; assumption|apply IHr; assumption].
-        - intros e0 E0. subst els. apply (H0 e0 eq_refl). exact Fe. }
+        - apply IHe1.
+        - apply IHe2.
+        - clear - H. induction elifs as [|[c0 t0] rest IHr]; [constructor|].
+          inversion H; subst. destruct H2 as (Hc & Ht). cbn [fst snd] in *.
+          constructor; [split; [apply Hc|apply Ht]|apply IHr; assumption].
+        - intros e0 E0. apply (H0 e0 E0). }
       split; [exact XQ|apply leaf_chain; auto].
+    - destruct IHe1 as (X1 & _). destruct IHe2 as (X2 & _).
+      assert (XQ : Q pool (EWhile e1 e2)) by (apply whileQ; assumption).
+      split; [exact XQ|apply leaf_chain; auto].
+    - destruct IHe1 as (X1 & _). destruct IHe2 as (X2 & _).
+      assert (XQ : Q pool (EUntil e1 e2)) by (apply untilQ; assumption).
+      split; [exact XQ|apply leaf_chain; auto].
+    - destruct IHe as (X & _).
+      assert (XQ : Q pool (ELoop e)) by (apply loopQ; assumption).
+      split; [exact XQ|apply leaf_chain; auto].
+    - assert (XQ : Q pool (EBreak v)).
+      { apply breakQ. intros a E0. apply (H a E0). }
+      split; [exact XQ|apply leaf_chain; auto].
+    - split; [apply continueQ|apply leaf_chain; auto; apply continueQ].
   Qed.
 End SimA.
